@@ -283,22 +283,86 @@ func c19Derived(r *core.Run, idx int, rng *rand.Rand) {
 	}
 }
 
+// c19SharedFactory builds several providers from ONE issuer factory value with different
+// insecure flags / and checks that each keeps its own scheme and path.
+func c19SharedFactory(r *core.Run, idx int, rng *rand.Rand) {
+	const wl = "shared_factory"
+	path := []string{"", "/saml", "x/y"}[rng.Intn(3)]
+	var f func(bool) (provider.IssuerFromRequest, error)
+	kind := rng.Intn(3)
+	switch kind {
+	case 0:
+		f = provider.IssuerFromHost(path)
+	case 1:
+		f = provider.IssuerFromForwardedOrHost(path)
+	default:
+		f = provider.IssuerFromForwardedOrHost(path, provider.WithIssuerFromCustomHeaders("forwarded", "x-fwd"))
+	}
+	wantPath := path
+	if wantPath != "" && !strings.HasPrefix(wantPath, "/") {
+		wantPath = "/" + wantPath
+	}
+	n := 2 + rng.Intn(3)
+	envs := make([]*env.Env, n)
+	insecure := make([]bool, n)
+	for i := range envs {
+		insecure[i] = rng.Intn(2) == 0
+		if i == 1 {
+			insecure[i] = !insecure[0]
+		}
+		e, err := env.New(env.Opts{IssuerFactory: f, Insecure: insecure[i]})
+		if err != nil {
+			r.Inconclusive("shared factory: provider construction failed: " + err.Error())
+			return
+		}
+		envs[i] = e
+	}
+	// query them in random order, several times
+	for k := 0; k < 3*n; k++ {
+		i := rng.Intn(n)
+		host := fmt.Sprintf("p%d.idp.example", rng.Intn(3))
+		hdr := map[string][]string(nil)
+		reqHost := host
+		if kind > 0 && rng.Intn(2) == 0 {
+			reqHost, hdr = "lb.internal", map[string][]string{"Forwarded": {"host=" + host}}
+		}
+		mv := fetchMeta(envs[i], env.PathMetadata, reqHost, hdr)
+		scheme := "https://"
+		if insecure[i] {
+			scheme = "http://"
+		}
+		want := strings.TrimSuffix(scheme+host+wantPath, "/") + "/metadata"
+		r.Eval(fmt.Sprintf("shared_factory|%d|%d|%d", idx, k, kind))
+		r.Count("shared_factory_probes", 1)
+		if mv.Err != "" {
+			r.Violate(core.Violation{Clause: "metadata_unavailable", Class: "shared_factory", Reason: mv.Err, Workload: wl, Index: idx})
+			return
+		}
+		if mv.EntityID != want {
+			r.Violate(core.Violation{Clause: "derived_issuer_shared_state", Class: fmt.Sprintf("shared_factory|kind=%d", kind), Reason: fmt.Sprintf("provider %d (insecure=%v) built from a shared factory value serves entityID %q, expected %q; flags of the %d providers: %v", i, insecure[i], mv.EntityID, want, n, insecure), Workload: wl, Index: idx, Case: map[string]any{"path": path, "insecure_flags": insecure, "request_host": reqHost, "headers": hdr}, Observed: mv.Call.Describe()})
+			return
+		}
+	}
+}
+
 func init() {
 	register(&Prop{
 		ID: "C19", Level: "exploration", DeathIsViolation: true,
 		TimeoutQuick: 5 * time.Minute, TimeoutThorough: 30 * time.Minute,
 		Build: func(c *Ctx) []core.Workload {
 			r := c.Run
-			r.Rule = "(static) issuer strings (schemes in any case, userinfo, ports, IPv6 literals, empty hosts, opaque and malformed URLs, control characters, query / fragment variants) x insecure {on, off} are offered to ValidateIssuer and to NewProvider(StaticIssuer); every accepted string must, under an RFC 3986 appendix-B splitter, have scheme https (http only in insecure mode), a non-empty host, no non-empty query and no non-empty fragment (rejecting more is never reported). (derived) for generated Host / Forwarded / custom header sets (several headers, lines, elements, quoted hosts, malformed syntax, decoy X-Forwarded-* headers) the entityID and every endpoint URL of the served metadata must be scheme + expected host + configured path, the expected host being known by construction for well-formed headers; for malformed headers the host must be the request host or a substring of a configured header. Distinct = inputs by hash."
+			r.Rule = "(static) issuer strings (schemes in any case, userinfo, ports, IPv6 literals, empty hosts, opaque and malformed URLs, control characters, query / fragment variants) x insecure {on, off} are offered to ValidateIssuer and to NewProvider(StaticIssuer); every accepted string must, under an RFC 3986 appendix-B splitter, have scheme https (http only in insecure mode), a non-empty host, no non-empty query and no non-empty fragment (rejecting more is never reported). (derived) for generated Host / Forwarded / custom header sets (several headers, lines, elements, quoted hosts, malformed syntax, decoy X-Forwarded-* headers) the entityID and every endpoint URL of the served metadata must be scheme + expected host + configured path, the expected host being known by construction for well-formed headers; for malformed headers the host must be the request host or a substring of a configured header; several providers built from ONE issuer factory value with different insecure flags must each keep their own scheme. Distinct = inputs by hash."
 			r.Require("issuer_strings", int64(c.Pick(4000, 50000)))
 			r.Require("issuers_accepted", 200)
 			r.Require("issuers_rejected", 1000)
 			r.Require("wellformed_header_sets_checked", int64(c.Pick(1000, 10000)))
 			r.Require("forwarded_host_used", 200)
 			r.Require("malformed_header_sets_checked", 100)
+			r.Require("shared_factory_probes", 500)
 			return []core.Workload{
 				{Name: "static_issuers", N: c.Pick(100, 1250), Fn: c19Static},
 				{Name: "derived_issuers", N: c.Pick(200, 2000), Fn: c19Derived},
+				{Name: "shared_factory", N: c.Pick(100, 1000), Fn: c19SharedFactory},
 			}
 		},
 	})
